@@ -2,6 +2,7 @@
 (DESIGN 2/C13)."""
 from __future__ import annotations
 
+from ..core import acopy
 import ast
 import hashlib
 import multiprocessing as mp
@@ -175,7 +176,7 @@ def structural_rules(ctx: Ctx):
 
                 import copy as _copy
 
-                ifs = [_Ren().visit(_copy.deepcopy(c)) for c in g2.ifs] + ifs
+                ifs = [_Ren().visit(acopy(c)) for c in g2.ifs] + ifs
                 src = g2.iter
         if not ifs:
             continue
